@@ -25,8 +25,8 @@ Theorem keyword_tokens_consistent : forall e, In e gen_keywords -> fst e = snd e
 Proof. exact keyword_tokens_consistent_all. Qed.
 Print Assumptions keyword_tokens_consistent.
 
-(* render_lex: for every grammatical operator/operand chain (identifiers, integer
-   literals, regular expressions, all 53 unary/binary/postfix operators, member
+(* render_lex: for every grammatical operator/operand chain (identifiers, numeric
+   literals of the shapes 12, 1.5, 15e-8, 0xff with the space-before-dot rule for plain integers, regular expressions, all 53 unary/binary/postfix operators, member
    access, parentheses), in both whitespace modes, the text produced by the
    printer's gluing rules is read back by the ECMA-262 maximal-munch lexer as
    exactly the emitted tokens: no two tokens fuse and no comment opener
@@ -49,7 +49,7 @@ Proof. exact spec_level_is_op_level. Qed.
 Print Assumptions op_levels_match_grammar.
 
 (* tree level, tokens: for every well-formed expression tree of the fragment (identifiers,
-   integers, regexps, member access a.b and index access a[b], the conditional c ? y : n,
+   numeric literals, regexps, member access a.b and index access a[b], the conditional c ? y : n,
    calls f(x, y) and new f(x, y) with argument lists of any length, all 11 unary/update and 42
    binary/assignment/comma operators), in both whitespace modes (minification omits the empty
    "()" of a new-expression where the grammar allows it),
